@@ -23,6 +23,7 @@ namespace vm {
       impl::attr_factory attrs;
       impl::capture_spec_factory caps;
       impl::Mapping* pool_mapping = nullptr;
+      impl::Region* pool_sub = nullptr;
       std::deque<impl::ref_sequence<ipr::Attribute>> attr_seqs;
       std::deque<impl::Token> tokens;
       const ipr::Token* new_token(const ipr::String& s, unsigned line, unsigned col, unsigned file, ipr::TokenValue v, ipr::TokenCategory c)
@@ -101,6 +102,7 @@ namespace vm {
          int id = w.lookup(static_cast<const void*>(&x), vh::K_other);
          return one(id ? id : -9);
       }
+      Value val(const ipr::Linkage& x) { int id = w.lookup(static_cast<const void*>(&x), vh::K_linkage); return one(id ? id : -9); }
       Value val(const ipr::Substitution& x) { return rawval(x); }
       Value val(const ipr::Token& x) { return rawval(x); }
       Value val(const ipr::Attribute& x) { return rawval(x); }
